@@ -176,6 +176,9 @@ func valKey(v Val) string {
 	case TInt:
 		return fmt.Sprintf("i%d", v.I)
 	case TFloat:
+		if exactFloat {
+			return fmt.Sprintf("f%b", v.F)
+		}
 		return fmt.Sprintf("f%.9g", v.F)
 	case TBool:
 		return fmt.Sprintf("b%v", v.B)
@@ -209,6 +212,10 @@ func (e *Env) opaqueFn(name string, ty TyClass, args []Val) Val {
 }
 
 func surrogate(name string, x float64) float64 {
+	if exactFloat {
+		// bit-exact mode: results must depend on every bit of the argument
+		return unit(h64("sur", name, math.Float64bits(x)))
+	}
 	k := h64("sur", name)
 	k1 := 0.3 + unit(k)
 	k2 := 0.5 + unit(h64(k))
